@@ -158,8 +158,12 @@ struct Sw<'a, 'e, T: IteTable<'a, BddPtr<'a>> + Default> {
     /// materialised functions
     f: FStore<BddPtr<'a>>,
     rep: Report,
-    digests: Vec<u64>,
-    expected: Option<&'e [u64]>,
+    /// (operation key, structure digest) of every checked result, in issue order
+    digests: Vec<(u64, u64)>,
+    expected: Option<&'e [(u64, u64)]>,
+    /// the reference run issued a different operation at this position (one of the two runs was
+    /// cut short by a cap): the lock step is lost and nothing further is compared
+    lock_lost: bool,
     opno: u64,
     compl_roots: u64,
     new_funcs: u64,
@@ -261,9 +265,22 @@ impl<'a, 'e, T: IteTable<'a, BddPtr<'a>> + Default> Sw<'a, 'e, T> {
         }
         // lock step with the cache-everything builder
         let d = structure_digest(r);
+        let opkey = {
+            let mut h: u64 = 0xcbf29ce484222325;
+            for b in format!("{:?}", op).bytes() {
+                h = (h ^ b as u64).wrapping_mul(0x100000001b3);
+            }
+            h
+        };
         if let Some(exp) = self.expected {
             let i = self.digests.len();
-            if i < exp.len() && exp[i] != d {
+            if !self.lock_lost && i < exp.len() && exp[i].0 != opkey {
+                // not the same operation: a wall-clock / memory cap cut one of the two runs inside
+                // a phase, so positions no longer correspond; comparing further would be wrong
+                self.lock_lost = true;
+                self.rep.add_extra("lockstep_lost_after_a_cap", 1);
+            }
+            if !self.lock_lost && i < exp.len() && exp[i].1 != d {
                 self.viol(
                     "C16",
                     "lossy-cache-changes-result",
@@ -272,7 +289,7 @@ impl<'a, 'e, T: IteTable<'a, BddPtr<'a>> + Default> Sw<'a, 'e, T> {
                 );
             }
         }
-        self.digests.push(d);
+        self.digests.push((opkey, d));
         if self.rep.n_violations > 64 {
             self.stop = true;
         }
@@ -526,9 +543,9 @@ fn issue_perm(k: usize, m: usize) -> Vec<usize> {
 fn sweep<'a, 'e, T: IteTable<'a, BddPtr<'a>> + Default>(
     b: &'a RobddBuilder<'a, T>,
     cfg: &Cfg,
-    expected: Option<&'e [u64]>,
+    expected: Option<&'e [(u64, u64)]>,
     ctx: &Ctx,
-) -> (Report, Vec<u64>) {
+) -> (Report, Vec<(u64, u64)>) {
     let n = cfg.n;
     let mut level = vec![0; n];
     for (pos, &v) in cfg.order.iter().enumerate() {
@@ -544,6 +561,7 @@ fn sweep<'a, 'e, T: IteTable<'a, BddPtr<'a>> + Default>(
         rep: Report::default(),
         digests: Vec::new(),
         expected,
+        lock_lost: false,
         opno: 0,
         compl_roots: 0,
         new_funcs: 0,
@@ -1091,7 +1109,7 @@ fn r1_explore(cfg: &Cfg, depth: usize, reduced_last: bool, ctx: &Ctx) -> Report 
 // ---------------------------------------------------------------------------------------------
 // drivers
 
-fn run_sweep_cfg(cfg: &Cfg, expected: Option<&[u64]>, ctx: &Ctx) -> (Report, Vec<u64>) {
+fn run_sweep_cfg(cfg: &Cfg, expected: Option<&[(u64, u64)]>, ctx: &Ctx) -> (Report, Vec<(u64, u64)>) {
     with_bdd_builder!(cfg, |b| sweep(&b, cfg, expected, ctx))
 }
 
